@@ -221,12 +221,32 @@ impl Interner<TokenKey> for BoxI {
         self.inner.o_try_intern(text)
     }
     fn get_or_intern(&mut self, text: &str) -> TokenKey {
+        if self.backend == "user" {
+            // a user-written interner implements `try_get_or_intern` only: go through the trait's *provided*
+            // `get_or_intern`, so that what the crate does there (panic on the first error) is under test
+            return ViaProvided(self).get_or_intern(text);
+        }
         self.calls += 1;
         if self.fail_next {
             self.fail_next = false;
             panic!("failed to intern (injected)");
         }
         self.inner.o_intern(text)
+    }
+}
+
+/// implements only the required method; `get_or_intern` is the trait's provided one
+struct ViaProvided<'a>(&'a mut BoxI);
+impl Resolver<TokenKey> for ViaProvided<'_> {
+    fn try_resolve(&self, key: TokenKey) -> Option<&str> {
+        self.0.try_resolve(key)
+    }
+}
+impl Interner<TokenKey> for ViaProvided<'_> {
+    type Error = String;
+
+    fn try_get_or_intern(&mut self, text: &str) -> Result<TokenKey, String> {
+        self.0.try_get_or_intern(text)
     }
 }
 
